@@ -84,6 +84,14 @@ def build():
     P(MG_H, 'MoveGen::addPawnDoubleMovesByMask', as_static=True)
     P(MG_H, 'MoveGen::addPawnMovesByMask', template=True, tsubst={'wtm': 'true'}, suffix='_w', as_static=True)
     P(MG_H, 'MoveGen::addPawnMovesByMask', template=True, tsubst={'wtm': 'false'}, suffix='_b', as_static=True)
+    # pawn section of checkEvasions<wtm> as a fragment (both colours): statements from the pawn bitboard to the end of the generator
+    EV_START = r'const U64 pawns = '
+    for sfx, val in (('_w', 'true'), ('_b', 'false')):
+        fr = U.fragment(MG_C, 'MoveGen_checkEvasions_pawns' + sfx, EV_START, r'#ifdef MOVELIST_DEBUG', within='MoveGen::checkEvasions', within_kw=dict(nparams=2, template=True),
+                        params=[('Position', 'pos', True), ('MoveList', 'moveList', True), ('U64', 'validTargets', False), ('U64', 'occupied', False)],
+                        cls='MoveGen', is_static=True, tsubst={'wtm': val}, prologue='using MyColor = ColorTraits<wtm>;\n')
+        fr.tsubst = {'wtm': val}
+        U.tr.aliases_for = getattr(U.tr, 'aliases_for', {})
     for gen in ('pseudoLegalMoves', 'checkEvasions', 'pseudoLegalCaptures', 'pseudoLegalCapturesAndChecks'):
         P(MG_C, 'MoveGen::' + gen, nparams=2, template=True, tsubst={'wtm': 'true'}, suffix='_w', as_static=True)
         P(MG_C, 'MoveGen::' + gen, nparams=2, template=True, tsubst={'wtm': 'false'}, suffix='_b', as_static=True)
@@ -223,6 +231,14 @@ static _Bool spec_gm_slider(const struct Position* p, int kind, U64 tg) {
     U64 a = kind == Piece_WQUEEN ? (spec_rook_rays(f, occ) | spec_bishop_rays(f, occ)) : kind == Piece_WROOK ? spec_rook_rays(f, occ)
           : kind == Piece_WBISHOP ? spec_bishop_rays(f, occ) : kind == Piece_WKNIGHT ? spec_knight_att(f) : spec_king_att(f);
     return ((a & ~own & tg) & BITM(ghost_m.to_)) != 0; }
+/* pawn moves a check-evasion generator must emit for the target filter vt: pushes onto target squares, captures of
+   pieces standing on target squares, en-passant captures (left to the legality filter) */
+static _Bool spec_pawn_evasion(const struct Position* p, const struct Move* m, U64 vt) {
+    if (!mv_shape(p, m)) return 0;
+    int pc = p->squares[m->from_];
+    if (pc != (p->whiteMove ? Piece_WPAWN : Piece_BPAWN)) return 0;
+    if ((m->to_ & 7) != (m->from_ & 7)) return (p->squares[m->to_] != Piece_EMPTY && (vt & BITM(m->to_)) != 0) || m->to_ == p->epSquare;
+    return (vt & BITM(m->to_)) != 0; }
 #define DOMAIN_COUNTS(p) (spec_popcount((p)->whiteBB_) <= 16 && spec_popcount((p)->blackBB_) <= 16)
 #pragma CPROVER check pop
 '''
@@ -359,6 +375,15 @@ for _k in ('MoveGen_checkEvasions_w', 'MoveGen_checkEvasions_b'):
     # ghost values are *defined* by (assumed) equalities in the precondition: spec functions must not be called from ghost code in the body
     CONTRACTS[_k]['requires'] += CONTRACTS[_k].pop('ghost_defs')
 
+for _sfx, _me in (('_w', 1), ('_b', 0)):
+    CONTRACTS['MoveGen_checkEvasions_pawns' + _sfx] = {
+        'requires': ['__CPROVER_is_fresh(pos, sizeof(*pos))', '__CPROVER_is_fresh(moveList, sizeof(*moveList))', 'wf_bb(pos)', 'FLAGS_OK(pos)', 'men_ok(pos)', 'wf_rights(pos)',
+                     'pos->whiteMove == %d' % _me, 'occupied == spec_occ(pos->squares)', '!spec_in_check_b(pos->squares, !pos->whiteMove)', 'GM_OK', '0 <= ghost_hits && ghost_hits < 1000'],
+        'assigns': ['moveList->size', 'ghost_hits'],
+        # exactly the pawn evasions for the given target filter, each once
+        'ensures': ['ghost_hits == __CPROVER_old(ghost_hits) + (spec_pawn_evasion(pos, &ghost_m, validTargets) ? 1 : 0)'],
+    }
+
 HARNESS = posunit.HARNESS.split('void h_setPiece')[0] + r'''
 void h_sqAttacked_w(void) { struct Position* p; int sq; U64 occ; havoc_tables(); MoveGen_sqAttacked_w(p, sq, occ); CANARY_POINT; }
 void h_sqAttacked_b(void) { struct Position* p; int sq; U64 occ; havoc_tables(); MoveGen_sqAttacked_b(p, sq, occ); CANARY_POINT; }
@@ -377,6 +402,8 @@ void h_addPawnMoves_w(void) { struct MoveList* ml; int d; U64 mask; _Bool all = 
 void h_addPawnMoves_b(void) { struct MoveList* ml; int d; U64 mask; _Bool all = (nondet_int() != 0); havoc_tables(); havoc_gm(); MoveGen_addPawnMovesByMask_b(ml, mask, d, all); CANARY_POINT; }
 '''
 HARNESS += r'''
+void h_evasion_pawns_w(void) { struct Position* p; struct MoveList* ml; U64 vt, occ; havoc_tables(); havoc_gm(); MoveGen_checkEvasions_pawns_w(p, ml, vt, occ); CANARY_POINT; }
+void h_evasion_pawns_b(void) { struct Position* p; struct MoveList* ml; U64 vt, occ; havoc_tables(); havoc_gm(); MoveGen_checkEvasions_pawns_b(p, ml, vt, occ); CANARY_POINT; }
 void h_checkEvasions_w(void) { struct Position* p; struct MoveList* ml; havoc_tables(); havoc_gm(); MoveGen_checkEvasions_w(p, ml); CANARY_POINT; }
 void h_checkEvasions_b(void) { struct Position* p; struct MoveList* ml; havoc_tables(); havoc_gm(); MoveGen_checkEvasions_b(p, ml); CANARY_POINT; }
 '''
@@ -397,6 +424,9 @@ for _n, _h, _f in (('addMovesByMask', 'h_addMovesByMask', 'MoveGen_addMovesByMas
 _HELP = ('MoveGen_addMovesByMask', 'MoveGen_addPawnDoubleMovesByMask', 'MoveGen_addPawnMovesByMask_w', 'MoveGen_addPawnMovesByMask_b', 'MoveList_addMove',
          'BitBoard_extractSquare', 'BitBoard_firstSquare', 'BitBoard_squaresBetween')
 for _sfx in ('_w', '_b'):
+    GROUPS.append(Group('checkEvasions_pawns' + _sfx, 'h_evasion_pawns' + _sfx, enforce='MoveGen_checkEvasions_pawns' + _sfx,
+                        replace=('MoveGen_addPawnDoubleMovesByMask', 'MoveGen_addPawnMovesByMask_w', 'MoveGen_addPawnMovesByMask_b'), min_props=10, timeout=3000))
+for _sfx in ('_w', '_b'):
     GROUPS.append(Group('checkEvasions' + _sfx, 'h_checkEvasions' + _sfx, enforce='MoveGen_checkEvasions' + _sfx, replace=_ATT + _HELP, loop_contracts=True,
                         min_props=20, expect_loop_props=4, timeout=3000))
 GROUPS.append(Group('givesCheck', 'h_givesCheck', enforce='MoveGen_givesCheck', replace=('BitBoard_getDirection', 'BitBoard_firstSquare'), min_props=10, timeout=3000,
@@ -406,6 +436,7 @@ GROUPS.append(Group('isLegal', 'h_isLegal', enforce='MoveGen_isLegal',
                     cases=('case', [('CASE_IC=%d' % ic, 'CASE_PT=%d' % pt) for ic in (0, 1) for pt in range(6)])))
 # groups that are part of the C01 claim (the others are built but did not close yet: run them with --only)
 CLAIMED = ['sqAttacked_w', 'sqAttacked_b', 'sqAttacked3', 'sqAttacked2', 'inCheck', 'addMovesByMask', 'addPawnDoubleMovesByMask', 'addPawnMovesByMask_w', 'addPawnMovesByMask_b',
+           'checkEvasions_pawns_w', 'checkEvasions_pawns_b',
            'givesCheck']   # givesCheck: thorough tier only (6 cases, 10-36 min each)
 PROPERTIES = {'C01': CLAIMED}
 ASSUMPTIONS = {'C01': [
